@@ -200,10 +200,19 @@ def b2l(b):
     return list(bytes(b))
 
 
+# fields that are also read back through SgxQuote.to_dict(): every decoded integer + the values the
+# verify command prints
+DICT_FIELDS = tuple(p + n for lay, p in ((certv2.QUOTE_HEADER, ""), (certv2.REPORT_BODY, "report_body."))
+                    for (n, _s, k) in lay.fields if k == "uint") + \
+    ("report_body.mrenclave", "report_body.mrsigner", "report_body.report_data")
+UNREADABLE = [256]        # sentinel: never equal to a byte sequence
+
+
 def signed_values(mat):
     """What was signed, from the builder's own structured input (oracle side)."""
+    fb = {k: b2l(v) for k, v in certv2.quote_field_bytes(mat).items()}
     return {"custom": b2l(mat["quote"]["custom_data"]), "quote": b2l(mat["quote"]["message"]),
-            "fields": {k: b2l(v) for k, v in certv2.quote_field_bytes(mat).items()}}
+            "fields": fb, "dict_fields": {k: fb[k] for k in DICT_FIELDS}}
 
 
 def _attr_path(obj, dotted):
@@ -212,23 +221,63 @@ def _attr_path(obj, dotted):
     return obj
 
 
+def _dict_path(obj, dotted):
+    for part in dotted.split("."):
+        obj = obj[part]
+    return obj
+
+
+def project_value(read, size, kind):
+    """TOTAL projection of one returned value onto the octets it stands for: an unsigned integer of
+    `size` bytes -> its little-endian octets, a byte string (or hex text, as to_dict() gives) -> its
+    octets.  Anything else the code may hand back (negative or oversized number, wrong type, an
+    exception while reading it) is an observation that differs from every signed byte string."""
+    try:
+        v = read()
+        if kind == "uint":
+            if isinstance(v, int) and not isinstance(v, bool) and 0 <= v < (1 << (8 * size)):
+                return b2l(v.to_bytes(size, "little"))
+            return UNREADABLE
+        if isinstance(v, str):
+            v = bytes.fromhex(v)
+        if isinstance(v, (bytes, bytearray)):
+            return b2l(v)
+        return UNREADABLE
+    except Exception:
+        return UNREADABLE
+
+
 def reported_values(value):
-    """Projection of the value the validator returned for a valid quote target."""
-    q = value["sgx_quote"]
-    fields = {}
+    """Projection (total: never raises) of the value the validator returned for a valid quote target:
+    custom message, raw quote, every field of the returned SgxQuote read as an attribute, and the
+    integers / printed values read again through SgxQuote.to_dict()."""
+    def get(k):
+        try:
+            return value[k]
+        except Exception:
+            return None
+    q = get("sgx_quote")
+    fields, sizes = {}, {}
     for lay, prefix in ((certv2.QUOTE_HEADER, ""), (certv2.REPORT_BODY, "report_body.")):
         for (n, size, kind) in lay.fields:
             path = prefix + n
-            if path == "report_body.report_data":
-                v = _attr_path(q, "report_body.report_data.field")
-            else:
-                v = _attr_path(q, path)
-            fields[path] = b2l(v.to_bytes(size, "little") if kind == "uint" else v)
-    return {"custom": b2l(bytes.fromhex(value["message"])), "quote": b2l(q.get_raw_data()),
-            "fields": fields}
+            sizes[path] = (size, kind)
+            ap = path + ".field" if path == "report_body.report_data" else path
+            fields[path] = project_value(lambda ap=ap: _attr_path(q, ap), size, kind)
+    try:
+        qd = q.to_dict()
+    except Exception:
+        qd = None
+    dict_fields = {}
+    for path in DICT_FIELDS:
+        dp = path + ".field" if path == "report_body.report_data" else path
+        dict_fields[path] = project_value(lambda dp=dp: _dict_path(qd, dp), *sizes[path])
+    return {"custom": project_value(lambda: get("message"), 0, "bytes"),
+            "quote": project_value(lambda: q.get_raw_data(), 0, "bytes"),
+            "fields": fields, "dict_fields": dict_fields}
 
 
-EMPTY_VALUES = {"custom": [], "quote": [], "fields": {}}
+EMPTY_VALUES = {"custom": [], "quote": [], "fields": {}, "dict_fields": {}}
 
 
 def observe(cert, root_pem, target, scratch, tag, via_file=True, pre_root_pem=None, clock=None):
@@ -287,15 +336,20 @@ def _observe(cert, root_pem, target, scratch, tag, via_file=True, pre_root_pem=N
         except Exception as e:          # not a verdict: certainly not "reported valid"
             obs["exc"] = "validate: %r" % (e,)
             return obs
-        r = res.get(target)
-        if r is None:
-            obs["exc"] = "no verdict for target"
-            return obs
-        if r[0] is True:
-            obs["valid"] = True
-            obs["reported"] = reported_values(r[1])
-        else:
-            obs["failing"] = str(r[1])
+        try:                            # reading the result must not be able to fail the harness
+            r = res.get(target)
+            if r is None:
+                obs["exc"] = "no verdict for target"
+                return obs
+            if r[0] is True:
+                obs["valid"] = True
+                obs["reported"] = reported_values(r[1])
+            else:
+                obs["failing"] = str(r[1])
+        except Exception as e:
+            if obs["valid"]:
+                obs["reported"] = {"custom": UNREADABLE, "quote": UNREADABLE, "fields": {}, "dict_fields": {}}
+            obs["exc"] = "unreadable result: %r" % (e,)
         return obs
     finally:
         for p in (cp, rp):
@@ -309,6 +363,15 @@ SWEEP_BASE = None       # (cert, root_pem, material) of the representative chain
 
 
 def run_task(task):
+    """Never raises: an exception of the harness itself comes back as {"id", "harness_error"}."""
+    try:
+        return _run_task(task)
+    except Exception:
+        import traceback
+        return {"id": task[0], "harness_error": traceback.format_exc()[-1500:], "meta": task[3]}
+
+
+def _run_task(task):
     """task = (tid, seed, plan, meta, scratch) -> trace dict (runs in a worker process).
     plan None-spec ("base": True): the flips are applied to the one representative chain."""
     tid, seed, plan, meta, scratch = task
@@ -345,6 +408,9 @@ def run_task(task):
     return t
 
 
+HARNESS_ERRORS = []       # tasks the harness itself failed on (reported after the verdicts)
+
+
 def run_tasks(tasks):
     if PROCS <= 1 or len(tasks) < 64:
         res = [run_task(t) for t in tasks]
@@ -354,6 +420,9 @@ def run_tasks(tasks):
             res = pool.map(run_task, tasks, chunksize=32)
     out, extras = [], []
     for t in res:
+        if "harness_error" in t:
+            HARNESS_ERRORS.append(t)
+            continue
         also = t.pop("also", None)
         out.append(t)
         if also is not None:
@@ -558,7 +627,7 @@ def judge(res, traces, label):
     return accepted, drift
 
 
-def selftest_trace_spec(traces, next_id):
+def selftest_trace_spec(traces, next_id, have_violations=False):
     """DESIGN 3.7(a): accepted observations with one logged field corrupted must be rejected by the
     trace specification (otherwise the judge is blind)."""
     import copy
@@ -566,6 +635,8 @@ def selftest_trace_spec(traces, next_id):
     val = next((t for t in traces if t["valid"] and t.get("accepted")), None)
     inv = next((t for t in traces if t["loaded"] and not t["valid"] and t.get("accepted")), None)
     if val is None or inv is None:
+        if have_violations:     # e.g. every valid observation was rejected: that IS the finding
+            return 0
         raise core.MachineryError("selftest: no valid / invalid observation to corrupt")
     neg = []
 
@@ -580,6 +651,11 @@ def selftest_trace_spec(traces, next_id):
     add(val, "ReportedExact", lambda t: t["reported"]["quote"].__setitem__(100, t["reported"]["quote"][100] ^ 0x10))
     add(val, "ReportedExact", lambda t: t["reported"]["fields"].__setitem__(
         "report_body.mrsigner", t["reported"]["fields"]["report_body.mrenclave"]))
+    add(val, "ReportedExact", lambda t: t["reported"]["dict_fields"].__setitem__(
+        "report_body.attributes.flags", UNREADABLE))
+    add(val, "ReportedExact", lambda t: t["reported"]["fields"].__setitem__(
+        "report_body.isvsvn", [t["reported"]["fields"]["report_body.isvsvn"][1],
+                               t["reported"]["fields"]["report_body.isvsvn"][0] ^ 0x80]))
     verdicts, _ = tlc.validate("TraceCertV2", "Trace_CertV2.cfg", [t for t, _c in neg], shards=1)
     for t, clause in neg:
         v = verdicts[t["id"]]
@@ -746,9 +822,30 @@ def run(ctx):
     res.coverage["random_certificates"] = len(rnd)
     res.coverage["random_unspecified_skipped"] = sum(1 for t in rnd if t["unspecified"])
     all_traces += rnd
+    # 5b. numeric boundaries of every decoded integer of the quote (genuine certificates) ---------------
+    prof_tasks = []
+    for lay, where in ((certv2.QUOTE_HEADER, "header"), (certv2.REPORT_BODY, "body")):
+        for (n, size, kind) in lay.fields:
+            if kind != "uint":
+                continue
+            for v in certv2.uint_boundaries(size):
+                sp = certv2.default_spec(ctx.rng.choice((1, 2, 3)))
+                sp["vary_content"] = True
+                sp["quote"][where] = {n: v}
+                tid += 1
+                prof_tasks.append((tid, ctx.seed, {"spec": sp, "flips": []},
+                                   {"src": "int-boundary", "field": n, "value": hex(v)}, ctx.scratch))
+    prof = run_tasks(prof_tasks)
+    res.coverage["integer_boundary_profiles"] = len(prof)
+    all_traces += prof
     # 6. TLC judges every observation ---------------------------------------------------------------
     accepted, drift = judge(res, all_traces, "all")
-    res.coverage["selftest_corrupted_observations_rejected"] = selftest_trace_spec(all_traces, tid + 1)
+    res.coverage["harness_errors"] = len(HARNESS_ERRORS)
+    if HARNESS_ERRORS and not res.violations:
+        raise core.MachineryError("%d task(s) failed inside the harness, first: %s" % (
+            len(HARNESS_ERRORS), HARNESS_ERRORS[0]["harness_error"]))
+    res.coverage["selftest_corrupted_observations_rejected"] = selftest_trace_spec(
+        all_traces, tid + 1, bool(res.violations))
     res.coverage["model_drift"] = model_drift + drift
     res.coverage["observed_outcomes"] = {
         "valid": sum(1 for t in all_traces if t["valid"]),
